@@ -1020,6 +1020,16 @@ class Gen(object):
         self._deep_chains = 1
         return {"op": "deep_chain", "t": self.cref(t), "name": name, "n": self.rng.randint(33, 40)}
 
+    def g_custom_again(self):
+        kept = self.U.__dict__.get("kept_custom") or []
+        if not kept:
+            x = self.pick(self.U.objs)
+            if x is None:
+                return None
+            return {"op": "validate_custom", "x": self.ref(x), "klass": self.pick(["section", "property"]),
+                    "keep": True}
+        return {"op": "custom_again", "k": self.rng.randrange(len(kept)), "rerun": self.chance(0.5)}
+
     def g_reseed(self):
         return {"op": "reseed", "k": self.pick([0, 1, 42])}
 
